@@ -7,6 +7,7 @@ import itertools
 import re
 import string
 import textwrap
+import unicodedata
 from pathlib import Path
 from typing import Collection, Iterable, List, Literal, Mapping, Sequence, Tuple
 
@@ -111,6 +112,11 @@ def _get_func_name_start_end(
             end = start + match.end()
             start += match.start()
             return start, end
+
+    # Python normalizes identifiers (NFKC), so the name may be spelled differently in the code
+    for match in re.finditer(r"(?:def|class)\s+(\w+)", codeblock):
+        if unicodedata.normalize("NFKC", match.group(1)) == node.name:
+            return start + match.start(1), start + match.end(1)
 
     raise RuntimeError(f"Cannot find {node.name} in code block:\n{codeblock}")
 
